@@ -72,3 +72,47 @@ Example ex_topup :
   = ([mkB 20000 3000 true; mkB 1000 200 false; mkB 500 0 false; mkB 1500 0 false;
       mkB 9000 0 false], TopSatisfied).
 Proof. vm_compute. reflexivity. Qed.
+
+(* composed start (C18_retry_start_floor is not vacuous): a set made of an input
+   whose first attempt failed before a tx existed (Some 0), a fresh input (None)
+   and an input that failed at 1500 sat/kw restarts at 1500; a set with only
+   Some 0 / None has no starting rate and starts at the estimate *)
+Example ex_set_start :
+  [set_starting_fee_rate [Some 0; None; Some 1500; Some 700];
+   set_starting_fee_rate [Some 0; None]; set_starting_fee_rate []]
+  = [Some 1500; None; None].
+Proof. vm_compute. reflexivity. Qed.
+
+Example ex_retry_premises : Forall (start_val_ok 253) [Some 0; None; Some 1500; Some 700].
+Proof. repeat constructor; cbn; lia. Qed.
+
+Example ex_retry_start :
+  match new_ff64 10000 10 253 (EstOk 1000) (set_starting_fee_rate [Some 0; None]),
+        new_ff64 10000 10 253 (EstOk 1000) (set_starting_fee_rate [Some 0; Some 1500]) with
+  | Ok f, Ok g => [ff_cur f; ff_cur g]
+  | _, _ => []
+  end = [1000; 1500].
+Proof. vm_compute. reflexivity. Qed.
+
+(* why Some 0 must count as unset: handed to NewLinearFeeFunction verbatim it
+   starts at 0 sat/kw, below the relay floor (the hypothesis start_val_ok of
+   C18_retry_start_floor is about the stored rates, not about the set's rate) *)
+Example ex_some0_verbatim_below_floor :
+  match new_ff64 10000 10 253 (EstOk 1000) (Some 0) with
+  | Ok f => ff_cur f | Err _ => -1 end = 0.
+Proof. vm_compute. reflexivity. Qed.
+
+(* C18_retry_monotone is not vacuous: an input whose wallet-refused tx was at
+   1500 sat/kw, re-clustered with an input that failed before a tx existed:
+   the retry starts at 1500, and at the (lower) new ceiling 1200 when re-clustering
+   shrank budget/size *)
+Example ex_retry_monotone :
+  match new_ff64 10000 8 253 (EstOk 600)
+          (set_starting_fee_rate [mark_publish_failed (Some 900) (failed_result_rate (FailAtRate 1500));
+                                  mark_publish_failed None (failed_result_rate FailNoTx)]),
+        new_ff64 1200 2 253 (EstOk 600)
+          (set_starting_fee_rate [mark_publish_failed None (failed_result_rate (FailAtRate 1500))]) with
+  | Ok f, Ok g => [ff_cur f; ff_cur g]
+  | _, _ => []
+  end = [1500; 1200].
+Proof. vm_compute. reflexivity. Qed.
